@@ -7,5 +7,7 @@ if ! git diff --quiet; then echo "/repo has uncommitted changes"; exit 2; fi
 git apply "$PATCH" || { echo "patch does not apply"; exit 2; }
 cd /verif && bin/verif check "$PROP" --tier "$TIER"; RC=$?
 cd /repo && git checkout -- . && git clean -fdq -- . >/dev/null 2>&1
+# restore evidence written by the run against the seeded tree
+git -C /verif checkout -- "evidence/$PROP.json" 2>/dev/null
 echo "seed result: rc=$RC"
 exit 0
